@@ -109,7 +109,14 @@ def generate_c_source(ffi):
 
 def write_c_source(output, generated):
     if output == '-':
-        sys.stdout.write(generated)
+        # the same bytes as in a file: UTF-8, whatever the locale says
+        buffer = getattr(sys.stdout, 'buffer', None)
+        if buffer is None:
+            sys.stdout.write(generated)
+        else:
+            sys.stdout.flush()
+            buffer.write(generated.encode('utf-8'))
+            buffer.flush()
         return
     with open(output, 'w', encoding='utf-8') as f:
         f.write(generated)
